@@ -331,6 +331,27 @@ def run_case(prop, case, spec, scratch, stats, tier_params):
                 d["detail"]["n_writes"] = nwrites
                 out.append(d)
                 break
+        # "one store missing": the complete files and one mid-history cut, each with either store gone
+        # (whichever file the library happens to create first, a crash between the two creations leaves
+        # one of these).  Same oracle: refused with the library's own error, or opens consistent.
+        if not out:
+            labelled = list(cuts(log, 0, rng))
+            for label, files in [labelled[-1], labelled[rng.randrange(len(labelled))]]:
+                for gone in NAMES:
+                    if files[gone] is None or files[NAMES[1 - NAMES.index(gone)]] is None:
+                        continue
+                    f2 = dict(files)
+                    f2[gone] = None
+                    stats["C18_cuts"] += 1
+                    stats["C18_cuts_one_store_missing"] += 1
+                    pos = int(label.split(":")[0])
+                    d = check_cut(folder, f2, rules, default, allowed_facts(facts, max(0, pos - 1)), probes, stats, label + ":without-" + gone)
+                    if d:
+                        d["detail"]["n_writes"] = nwrites
+                        out.append(d)
+                        break
+                if out:
+                    break
     finally:
         shutil.rmtree(folder, ignore_errors=True)
     # validate the fault model against reality on a sample of cuts: re-run the
